@@ -226,11 +226,11 @@ class MuxPeer(_ServerBase):
       return False
     p.answered = True
     body = struct.pack('!bh', status, 0) + (payload if payload is not None else p.reply)
-    p.conn.feed(mux_frame(RDISPATCH, p.tag, body))
+    p.conn.feed(mux_frame(RDISPATCH, p.tag, body), mark={'mtype': RDISPATCH, 'tag': p.tag})
     self.net._log('srv_reply', p.conn, req=p.n, tag=p.tag)
     return True
 
   def send_frame(self, conn, mtype, tag, body=b''):
     """Adversarial / arbitrary frame from the peer."""
-    conn.feed(mux_frame(mtype, tag, body))
+    conn.feed(mux_frame(mtype, tag, body), mark={'mtype': mtype, 'tag': tag})
     self.net._log('srv_rawframe', conn, mtype=mtype, tag=tag)
